@@ -45,6 +45,15 @@ theorem toDef_wakeComm (D : Design) (k : ProcKind) (l : Local) (i j : Nat) (oi n
   | clock slot phase period => rfl
   | userComb ins out e => exact trigWake_comm _ l i j oi ni oj nj
   | userSync d ins out e => exact trigWake_comm _ l i j oi ni oj nj
+  | userSyncPart d ins out lo hi e => exact trigWake_comm _ l i j oi ni oj nj
+  | userLateComb n ins out e =>
+    simp only [ProcKind.toDef, userLateCombDef]
+    by_cases h : l.pc = 0
+    · simp [h]
+    · have hw : ∀ (l' : Local) s o n', (trigWake (ins.map .changed) l' s o n').pc = l'.pc := by
+        intro l' s o n'; unfold trigWake; split <;> rfl
+      simp only [beq_iff_eq, h, if_false, hw]
+      exact trigWake_comm _ l i j oi ni oj nj
 
 theorem tbDef_wakeComm (ctx : Ctx) (doms : List DomCfg) (script : List TbOp) (l : Local) (i j : Nat) (oi ni oj nj : Int) :
     (tbDef ctx doms script).wake ((tbDef ctx doms script).wake l i oi ni) j oj nj =
@@ -90,6 +99,32 @@ theorem toDef_wellBehaved (D : Design) (k : ProcKind) :
       · split
         · rfl
         · split <;> rfl
+  | userSyncPart d ins out lo hi e =>
+    refine ⟨fun l cur h => ?_, fun l cur => ?_, fun l cur => rfl⟩
+    · simp only [ProcKind.toDef, userSyncPartDef]
+      split
+      · exact h
+      · split
+        · exact h
+        · split <;> exact h
+    · simp only [ProcKind.toDef, userSyncPartDef]
+      split
+      · rfl
+      · split
+        · rfl
+        · split <;> rfl
+  | userLateComb n ins out e =>
+    refine ⟨fun l cur h => ?_, fun l cur => ?_, fun l cur => ?_⟩
+    · simp only [ProcKind.toDef, userLateCombDef]
+      split
+      · exact h
+      · split <;> exact h
+    · simp only [ProcKind.toDef, userLateCombDef]
+      split
+      · rfl
+      · split <;> rfl
+    · simp only [ProcKind.toDef, userLateCombDef]
+      split <;> rfl
 
 theorem simDefs_wellBehaved (D : Design) (kinds : List ProcKind) (scripts : List (List TbOp)) :
     WellBehaved (simDefs D kinds scripts) := by
